@@ -72,7 +72,7 @@ CHECKS = {
          "read_line / read_to_string on invalid UTF-8, read_to_string(stdin) and exit() with unflushed writers are don't-care", "DESIGN.md §4 C21"),
  "C22": ("p2v-inproc", "proptest sequences of I/O builtin calls aimed at failing targets (ENOENT, EISDIR, EEXIST, ENOTDIR, EIO via /proc/self/mem, ENOSPC via /dev/full, garbage/short/empty pcap headers), in-process and through the real binary with failing stdin/stdout; oracle: is_error of every must-fail result, no runtime error, no crash",
          "Each scenario logs is_error of the result of open / read / read_line / read_to_string / write / flush / pcap_open / pcap_write on a prepared failing target; must-fail calls have to return an error object and the script has to reach its end. The real binary is run with stdin = garbage, empty, short, a directory and stdout = /dev/full for pcap_stream, read, read_line, write, flush, pcap_write.",
-         "EACCES cannot be provoked as root; small buffered writes to a full device may succeed if the following flush reports the failure", "DESIGN.md §4 C22"),
+         "EACCES is provoked by running the binary as uid 65534; small buffered writes to a full device may succeed if the following flush reports the failure", "DESIGN.md §4 C22, §8.5"),
  "C23": ("p2v-e2e", "proptest generator of REPL histories driven through the real run_prompt loop (scripted line source hook); oracle: reference interpreter run entry by entry over one environment plus a static resolver for rejection; differential against one `p2sh -c` program of the accepted entries",
          "Histories of 1..12 entries (definitions, redefinitions, functions reading/updating globals, echoed expressions, continuation lines, parse errors, compile errors that mention, redefine or newly define names before the error, runtime errors between side effects, a probe after every rejected entry) are fed to the hooked binary; per-entry stdout must equal the model's, rejected entries print nothing on stdout and something on stderr; for clean histories the accepted entries as one -c program print the same text.",
          "needs hook: scripted line source for Prompt::show; the echo of an entry that does not end in an expression statement is don't-care", "DESIGN.md §4 C23"),
